@@ -212,6 +212,9 @@ RULE = ("every listed wait strategy instance (fixed, exponential incl. exp_base<
 from vmc.tables import _ROUND6 as _R6  # noqa: E402
 
 RULE += _R6["C06"]
+from vmc.tables import _ROUND7 as _R7  # noqa: E402
+
+RULE += _R7["C06"]
 
 
 
